@@ -269,7 +269,11 @@ func (fc *fileCtx) rewrite() {
 	astutil.Apply(f, nil, func(c *astutil.Cursor) bool {
 		switch n := c.Node().(type) {
 		case *ast.SelectStmt:
-			fc.unsup = append(fc.unsup, "select at "+fc.pos(n))
+			if _, labelled := c.Parent().(*ast.LabeledStmt); labelled {
+				fc.unsup = append(fc.unsup, "labelled select at "+fc.pos(n))
+			} else {
+				c.Replace(fc.rewriteSelect(n))
+			}
 		case *ast.SendStmt:
 			c.Replace(&ast.ExprStmt{X: fc.mcCall("Send", n.Chan, n.Value)})
 		case *ast.UnaryExpr:
@@ -411,4 +415,86 @@ func (fc *fileCtx) rewriteRange(n *ast.RangeStmt) ast.Stmt {
 		Init: &ast.AssignStmt{Lhs: []ast.Expr{ch}, Tok: token.DEFINE, Rhs: []ast.Expr{n.X}},
 		Body: body,
 	}
+}
+
+// rewriteSelect turns a select statement into the registration of its cases with
+// the mc runtime followed by a switch on the case that proceeds. Children have
+// already been rewritten (post-order), so communication clauses arrive as calls
+// of verifmc.Send / Recv / Recv2.
+func (fc *fileCtx) rewriteSelect(n *ast.SelectStmt) ast.Stmt {
+	fc.stats["select"]++
+	sel := fc.tmp("sel")
+	hasDefault := false
+	for _, cl := range n.Body.List {
+		if cl.(*ast.CommClause).Comm == nil {
+			hasDefault = true
+		}
+	}
+	dflt := "false"
+	if hasDefault {
+		dflt = "true"
+	}
+	stmts := []ast.Stmt{&ast.AssignStmt{Lhs: []ast.Expr{sel}, Tok: token.DEFINE, Rhs: []ast.Expr{fc.mcCall("NewSelect", ast.NewIdent(dflt))}}}
+	sw := &ast.SwitchStmt{Tag: &ast.CallExpr{Fun: &ast.SelectorExpr{X: sel, Sel: ast.NewIdent("Wait")}}, Body: &ast.BlockStmt{}}
+	idx := 0
+	// mcArgs extracts the arguments of a verifmc.<name>(...) call
+	mcArgs := func(e ast.Expr, names ...string) ([]ast.Expr, bool) {
+		call, ok := e.(*ast.CallExpr)
+		if !ok || !isMcCall(call) {
+			return nil, false
+		}
+		fn := call.Fun.(*ast.SelectorExpr).Sel.Name
+		for _, nm := range names {
+			if fn == nm {
+				return call.Args, true
+			}
+		}
+		return nil, false
+	}
+	for _, cl := range n.Body.List {
+		cc := cl.(*ast.CommClause)
+		if cc.Comm == nil {
+			sw.Body.List = append(sw.Body.List, &ast.CaseClause{List: nil, Body: cc.Body})
+			continue
+		}
+		lit := &ast.BasicLit{Kind: token.INT, Value: strconv.Itoa(idx)}
+		idx++
+		var body []ast.Stmt
+		switch st := cc.Comm.(type) {
+		case *ast.ExprStmt:
+			if args, ok := mcArgs(st.X, "Send"); ok { // case c <- v
+				stmts = append(stmts, &ast.ExprStmt{X: fc.mcCall("SelAddSend", sel, args[0], args[1])})
+			} else if args, ok := mcArgs(st.X, "Recv", "Recv2"); ok { // case <-c
+				stmts = append(stmts, &ast.AssignStmt{Lhs: []ast.Expr{ast.NewIdent("_")}, Tok: token.ASSIGN, Rhs: []ast.Expr{fc.mcCall("SelAddRecv", sel, args[0])}})
+			} else {
+				fc.unsup = append(fc.unsup, "select clause at "+fc.pos(cc))
+			}
+		case *ast.AssignStmt: // case v := <-c, case v, ok = <-c
+			args, ok := mcArgs(st.Rhs[0], "Recv", "Recv2")
+			if !ok {
+				fc.unsup = append(fc.unsup, "select clause at "+fc.pos(cc))
+				break
+			}
+			h := fc.tmp("rc")
+			stmts = append(stmts, &ast.AssignStmt{Lhs: []ast.Expr{h}, Tok: token.DEFINE, Rhs: []ast.Expr{fc.mcCall("SelAddRecv", sel, args[0])}})
+			get := &ast.CallExpr{Fun: &ast.SelectorExpr{X: h, Sel: ast.NewIdent("Get")}}
+			lhs := st.Lhs
+			if len(lhs) == 1 {
+				lhs = []ast.Expr{lhs[0], ast.NewIdent("_")}
+			}
+			body = append(body, &ast.AssignStmt{Lhs: lhs, Tok: st.Tok, Rhs: []ast.Expr{get}})
+			if st.Tok == token.DEFINE {
+				// keep "declared and not used" away when the body ignores the variables
+				for _, l := range lhs {
+					if id, ok := l.(*ast.Ident); ok && id.Name != "_" {
+						body = append(body, &ast.AssignStmt{Lhs: []ast.Expr{ast.NewIdent("_")}, Tok: token.ASSIGN, Rhs: []ast.Expr{ast.NewIdent(id.Name)}})
+					}
+				}
+			}
+		default:
+			fc.unsup = append(fc.unsup, "select clause at "+fc.pos(cc))
+		}
+		sw.Body.List = append(sw.Body.List, &ast.CaseClause{List: []ast.Expr{lit}, Body: append(body, cc.Body...)})
+	}
+	return &ast.BlockStmt{List: append(stmts, sw)}
 }
